@@ -25,6 +25,9 @@ pub struct SimSource {
     pos: usize,
     end: usize,
     early: bool,
+    /// What `size_hint` reports (drawn once per source): every answer the Iterator contract
+    /// allows, from "no idea" to exact.
+    hint: u32,
 }
 
 impl SimSource {
@@ -36,6 +39,7 @@ impl SimSource {
             pos: 0,
             end,
             early: end < n,
+            hint: crate::clock::choose(6),
         }
     }
 }
@@ -54,6 +58,17 @@ impl Iterator for SimSource {
                 probe(Probe::SourceEofEarly);
             }
             None
+        }
+    }
+    fn size_hint(&self) -> (usize, Option<usize>) {
+        let left = self.end - self.pos.min(self.end);
+        match self.hint {
+            0 => (0, None),
+            1 => (left, Some(left)),
+            2 => (0, Some(left)),
+            3 => (0, Some(usize::MAX)),
+            4 => (left.min(1), None),
+            _ => (left / 2, Some(left.saturating_mul(2) + 7)),
         }
     }
 }
